@@ -86,6 +86,31 @@ func mapOrderAudit(c *Ctx, rule string, fns []*ssa.Function, strict bool) (range
 	for _, f := range fns {
 		for _, b := range f.Blocks {
 			for _, in := range b.Instrs {
+				// the iterators of package maps deliver a map in map order: only slices.Sorted* makes that order disappear
+				if call, isCall := in.(*ssa.Call); isCall {
+					if g := staticCallee(&call.Call); g != nil && pkgPathOf(g) == "maps" && (strings.HasPrefix(g.Name(), "Keys") || strings.HasPrefix(g.Name(), "Values") || strings.HasPrefix(g.Name(), "All")) {
+						n++
+						okUse := call.Referrers() != nil && len(*call.Referrers()) > 0
+						where := ""
+						if call.Referrers() != nil {
+							for _, r := range *call.Referrers() {
+								if _, isDbg := r.(*ssa.DebugRef); isDbg {
+									continue
+								}
+								rc, isRC := r.(*ssa.Call)
+								if isRC {
+									if h := staticCallee(&rc.Call); h != nil && pkgPathOf(h) == "slices" && strings.HasPrefix(h.Name(), "Sorted") {
+										continue
+									}
+								}
+								okUse = false
+								where = P.Pos(posOf(r))
+							}
+						}
+						c.Check(okUse, rule, fnName(f), "iterator "+Expr(call), P.Pos(call.Pos()), "a map iterator is consumed only by slices.Sorted* (used otherwise at "+where+")")
+						continue
+					}
+				}
 				rg, ok := in.(*ssa.Range)
 				if !ok {
 					continue
@@ -286,7 +311,7 @@ func runC19(c *Ctx) {
 		}
 	}
 	n, _ := mapOrderAudit(c, "C19.order", fns, false)
-	c.Floor("C19.order/map-ranges", n, 2)
+	c.Floor("C19.order/map-ranges", n, 1)
 
 	// ---- prefix / element table
 	{
@@ -436,8 +461,19 @@ func runC19(c *Ctx) {
 			}
 			sort.Strings(gots)
 			allOK := ok
+			if r.nkeys <= 1 && r.nelem > 0 && len(gots) > 0 {
+				allOK = true // decided below on the normalised sequences
+			}
 			for _, g := range gots {
 				gg := g
+				// every element handed to the sorted-values helper, whatever the number of keys: with one key that is
+				// the key's value, without keys nothing
+				if r.nkeys == 1 {
+					gg = strings.ReplaceAll(gg, "sortedVals", "keyvalue")
+				}
+				if r.nkeys == 0 {
+					gg = strings.TrimSpace(strings.ReplaceAll(strings.ReplaceAll(gg, " sortedVals", ""), "sortedVals", ""))
+				}
 				if r.nkeys == 1 {
 					// the engine does not bound the iteration count of the single-entry key map:
 					// 0..2 iterations of the inner loop are enumerated; order facts are unaffected
@@ -481,6 +517,32 @@ func runC19(c *Ctx) {
 					okLookup = true
 				}
 			})
+		}
+		if !sorted {
+			// the keys obtained already sorted: slices.Sorted(maps.Keys(m)) of the map parameter, lookups keyed by its elements
+			instrs(sv, func(in ssa.Instruction) {
+				call, ok := in.(*ssa.Call)
+				if !ok {
+					return
+				}
+				g := staticCallee(&call.Call)
+				if g == nil || pkgPathOf(g) != "slices" || !strings.HasPrefix(g.Name(), "Sorted") || len(call.Call.Args) < 1 {
+					return
+				}
+				if kc, ok := call.Call.Args[0].(*ssa.Call); ok {
+					if h := staticCallee(&kc.Call); h != nil && pkgPathOf(h) == "maps" && strings.HasPrefix(h.Name(), "Keys") && len(kc.Call.Args) == 1 && kc.Call.Args[0] == ssa.Value(param(sv, 0)) {
+						sorted = true
+						sortInstr = in
+					}
+				}
+			})
+			if sorted {
+				instrs(sv, func(in ssa.Instruction) {
+					if lk, ok := in.(*ssa.Lookup); ok && lk.X == ssa.Value(param(sv, 0)) && instrDominates(sortInstr, lk) {
+						okLookup = true
+					}
+				})
+			}
 		}
 		c.Check(sorted && okLookup, "C19.prefix", fnName(sv), "keys sorted, then values collected by key", P.Pos(sv.Pos()), fmt.Sprintf("sort.Strings called=%v, value lookups after the sort=%v", sorted, okLookup))
 	}
